@@ -445,6 +445,10 @@ def run(pid: str) -> int:
     found = check_model(chk, INVS[pid])
     for f in found:
         chk.violation(f"HybridLoads.tla invariant {f['invariant']} violated", f)
+    if pid == "C08":
+        from .p_calendar import month_helpers  # noqa: PLC0415
+
+        month_helpers(chk)
     # is the listed finding F14 still present on the model?  (a violated F14Present means it is)
     t = tier()
     mod, consts = mc(input_classes(t), horizons(t), FIXED)
